@@ -163,13 +163,13 @@ theorem step_sim (hh : headIsPop = true) (hd : startDetermined = true)
   | clearParams =>
     simp only [step, Spec.step, Spec.fresh, and_true]
     exact ⟨hc, rfl, hf, hg, hcf, hs, hso⟩
-  | install f =>
+  | install f i =>
     simp only [step, Spec.step, Spec.fresh, and_true]
     exact ⟨hc, hp, by simp [hf], hg, hcf, hs, hso⟩
   | uninstall f =>
     simp only [step, Spec.step, Spec.fresh, and_true]
     exact ⟨hc, hp, by simp [hf], hg, hcf, hs, hso⟩
-  | ginstall f =>
+  | ginstall f i =>
     simp only [step, Spec.step, Spec.fresh, and_true]
     exact ⟨hc, hp, hf, by simp [hg], hcf, hs, hso⟩
   | guninstall f =>
@@ -298,6 +298,49 @@ theorem put_lookup_same (ps : ParamMap) (k : String) (h : Holder) : (ps.put k h)
 
 theorem put_lookup_other (ps : ParamMap) (k j : String) (h : Holder) (hj : j ≠ k) :
     (ps.put k h).lookup j = ps.lookup j := putA_lookup_other ps k j h hj
+
+theorem removeA_lookup {β : Type} (l : List (String × β)) (k j : String) :
+    (removeA l k).lookup j = if j = k then none else l.lookup j := by
+  induction l with
+  | nil => simp [removeA, List.lookup]
+  | cons p r ih =>
+    obtain ⟨a, b⟩ := p
+    simp only [removeA] at ih
+    by_cases hak : a = k
+    · subst hak
+      by_cases hj : j = a
+      · subst hj; simp [removeA, List.lookup, ih]
+      · have h1 : (j == a) = false := by simp [hj]
+        simp [removeA, List.lookup, h1, ih, hj]
+    · by_cases hj : j = a
+      · subst hj
+        have : ¬ j = k := hak
+        simp [removeA, List.lookup, hak, this]
+      · have h1 : (j == a) = false := by simp [hj]
+        simp [removeA, List.lookup, hak, h1, ih]
+
+/-- one configuration operation acts on the lookup of every key as `lastWrite` says -/
+theorem applyC_lookup (m : List (String × String)) (op : COp) (k : String) :
+    (applyC m op).lookup k = lastWrite k (m.lookup k) op := by
+  cases op with
+  | set k' v =>
+    by_cases h : k' = k
+    · subst h; simp [applyC, lastWrite, putA_lookup_same]
+    · have : k ≠ k' := fun x => h x.symm
+      simp [applyC, lastWrite, h, putA_lookup_other _ _ _ _ this]
+  | remove k' =>
+    by_cases h : k' = k
+    · subst h; simp [applyC, lastWrite, removeA_lookup]
+    · have : ¬ k = k' := fun x => h x.symm
+      simp [applyC, lastWrite, h, removeA_lookup, this]
+
+theorem foldl_applyC_lookup (ops : List COp) (m : List (String × String)) (k : String) :
+    (ops.foldl applyC m).lookup k = ops.foldl (lastWrite k) (m.lookup k) := by
+  induction ops generalizing m with
+  | nil => rfl
+  | cons op r ih =>
+    simp only [List.foldl_cons]
+    rw [ih, applyC_lookup]
 
 theorem effectiveAll_put (ps : ParamMap) (k : String) (h : Holder) :
     effectiveAll (ps.put k h) = putA (effectiveAll ps) k h.effective := by
